@@ -59,12 +59,18 @@ struct Sink {
     /// copies of one generation that differ from one another (implementation-level oracle)
     tfail: Vec<String>,
     opno: u64,
+    /// standing invariants (harness lib `inv`) that failed: "PROPS\twhat"
+    inv_fail: Vec<String>,
+    inv_checks: u64,
+    /// the last emitted answer started with `ok`
+    last_res_ok: bool,
 }
 
 impl Sink {
     fn emit(&mut self, kind: &str, op: String, res: String) {
         writeln!(self.ops, "kv {}", op).unwrap();
         writeln!(self.imp, "{}", res).unwrap();
+        self.last_res_ok = res.starts_with("ok");
         *self.hist.entry(kind.to_string()).or_insert(0) += 1;
         if let Some(e) = res.strip_prefix("err ") {
             let e = e.split(' ').next().unwrap_or("");
@@ -175,6 +181,26 @@ fn exec(sut: &mut Sut, s: &mut Sink, op: &Op) {
     let fresh = matches!(op, Op::Reopen { .. });
     exec_call(sut, s, op);
     observe_tiers(sut, s, fresh);
+    // the standing invariants: after every call; the ownership partition where a flush was just acknowledged
+    if let Some(st) = sut.store.clone() {
+        let mut found = feox_verif_harness::inv::quiescent(&st);
+        let acked = match op { Op::Flush => s.last_res_ok, Op::Reopen { .. } => true, _ => false };
+        if acked && !sut.cfg.mem { found.extend(feox_verif_harness::inv::after_flush(&st, &sut.path)); }
+        s.inv_checks += 1;
+        for f in found {
+            if s.inv_fail.len() < 6 {
+                s.inv_fail.push(format!("{}\tcase {} after call {} (`{}`): {}", f.props.join(","), s.cases, s.opno, op_name(op), f.what));
+            }
+        }
+    }
+}
+
+fn op_name(op: &Op) -> &'static str {
+    match op {
+        Op::Ins { .. } => "insert", Op::Del { .. } => "delete", Op::Get { .. } => "get", Op::Cas { .. } => "compare_and_swap", Op::Inc { .. } => "atomic_increment",
+        Op::IfAbs { .. } => "insert_if_absent", Op::Patch { .. } => "json_patch", Op::TtlQ { .. } => "get_ttl", Op::UTtl { .. } => "update_ttl / persist",
+        Op::Range { .. } => "range_query", Op::Flush => "flush", Op::Reopen { .. } => "reopen", Op::Advance { .. } => "clock advance", _ => "call",
+    }
 }
 
 fn exec_call(sut: &mut Sut, s: &mut Sink, op: &Op) {
@@ -439,7 +465,18 @@ fn gen_op(rng: &mut Rng, sut: &Sut, last_explicit: &mut u64) -> Op {
     };
     let now = sut.now;
     match rng.below(100) {
-        0..=21 => Op::Ins { k: pick_key(rng), v: gen_value(rng), ts: gen_ts(rng, now, last_explicit), ttl: 0, api: false, bytes_api: rng.chance(1, 3) },
+        0..=21 => {
+            let k = pick_key(rng);
+            // one write in ten has a record image that ends in the last bytes of a block, or exactly on the
+            // boundary, under the v1 (22 + key) or the v2 / v3 (30 + key) header: the extent arithmetic of
+            // writer, reader and retirement must agree there
+            let v = if rng.chance(1, 10) && k.len() < 3000 {
+                let hdr = *rng.pick(&[22usize, 30]) + k.len();
+                let total = rng.range(1, 2) as usize * 4096 - rng.below(9) as usize;
+                rng.bytes(total.saturating_sub(hdr).max(1))
+            } else { gen_value(rng) };
+            Op::Ins { k, v, ts: gen_ts(rng, now, last_explicit), ttl: 0, api: false, bytes_api: rng.chance(1, 3) }
+        }
         22..=29 => Op::Ins { k: pick_key(rng), v: gen_value(rng), ts: if rng.chance(1, 3) { gen_ts(rng, now, last_explicit) } else { None }, ttl: gen_ttl(rng), api: true, bytes_api: rng.chance(1, 3) },
         30..=43 => Op::Get { k: pick_key(rng), bytes_api: rng.chance(1, 3) },
         44..=45 => Op::Size { k: pick_key(rng) },
@@ -652,7 +689,7 @@ fn main() {
     std::fs::create_dir_all(&args.out).unwrap();
     let open = |n: &str| std::io::BufWriter::new(std::fs::File::create(format!("{}/{}", args.out, n)).unwrap());
     let mut s = Sink { ops: open("kv.ops"), imp: open("kv.impl"), hist: BTreeMap::new(), errs: BTreeMap::new(), tiers: BTreeMap::new(), lines: 0, cases: 0,
-        tops: open("kv.tiers.ops"), tlines: 0, tfail: vec![], opno: 0 };
+        tops: open("kv.tiers.ops"), tlines: 0, tfail: vec![], opno: 0, inv_fail: vec![], inv_checks: 0, last_res_ok: false };
     let recsize = feoxdb::verif::pure::record_struct_size();
     feoxdb::verif::io::disable_ring(true);
     feoxdb::verif::proto::fast_shutdown(true);
@@ -680,6 +717,7 @@ fn main() {
     s.ops.flush().unwrap();
     s.imp.flush().unwrap();
     s.tops.flush().unwrap();
+    std::fs::write(format!("{}/kv.inv.fail", args.out), s.inv_fail.iter().map(|l| format!("{}\n", l)).collect::<String>()).unwrap();
     std::fs::write(format!("{}/kv.tiers.fail", args.out), s.tfail.iter().map(|l| format!("{}\n", l)).collect::<String>()).unwrap();
     let j = |m: &BTreeMap<String, u64>| m.iter().map(|(k, v)| format!("\"{}\": {}", k, v)).collect::<Vec<_>>().join(", ");
     let meta = format!(
